@@ -11,6 +11,8 @@ structure St where
   me : Float := 0
   heap : Heap Float := Heap.empty
 
+def init : St := {}
+
 def St.massFn (st : St) (z a : Nat) : Float := (st.mass.get? (z, a)).getD (0.0 / 0.0)
 def St.symFn (st : St) (z a : Nat) : Nat :=
   match st.sym.get? (z, a) with
